@@ -150,7 +150,7 @@ func main() {
 	xplor.Main(xplor.Check{
 		ID:    "C01",
 		Level: "exploration",
-		Rule:  "every block of <= 2 transactions over the 41-letter alphabet (transfers incl. 0/all/all+1/self/new account, stake/unstake/vote/DAO vote/name create/update/setOwner, contract deploy/call with storage writes, runtime failure, system failure, gas, fee delegation, and signature/chain-id/nonce faults) x pre-state {genesis, warm} x network configuration {fork version, public|private fee regime, coinbase set|unset, reward vault funded|empty}, produced through the real BlockGenerator/TxExecutor and then validated through ChainService.addBlock on the same pre-state; oracle: sum of all balances of the full state dump (every account reachable in the state trie) before = after (or before - after = sum of receipt fees without coinbase), coinbase credit = recorded fees, validator state = producer state. distinct_nontrivial = distinct (net, pre-state, word, outcome vector) with at least one tx",
+		Rule:  "every block of <= 2 transactions over the 42-letter alphabet (transfers incl. 0/all/all+1/self/new account, stake/unstake/vote/DAO vote/name create/update/setOwner, contract deploy/call with storage writes, runtime failure, system failure, gas, fee delegation, and signature/chain-id/nonce faults) x pre-state {genesis, warm} x network configuration {fork version, public|private fee regime, coinbase set|unset, reward vault funded|empty}, produced through the real BlockGenerator/TxExecutor and then validated through ChainService.addBlock on the same pre-state; oracle: sum of all balances of the full state dump (every account reachable in the state trie) before = after (or before - after = sum of receipt fees without coinbase), coinbase credit = recorded fees, validator state = producer state. distinct_nontrivial = distinct (net, pre-state, word, outcome vector) with at least one tx",
 		Assumptions: []string{
 			"contract transactions run on the stub VM (contract-internal transfers by Lua code are outside)",
 			"the fee a transaction paid is taken from its receipt (witness); the fee schedule itself is not re-derived",
